@@ -195,7 +195,7 @@ def subchecks(tier):
     S = []
 
     def add(name, strat, oracle, quick=50, thorough=250, exc=LinAlg, **kw):
-        S.append(SubCheck(name, strat, oracle, quick=4 * quick, thorough=6 * thorough, discard_exc=exc,
+        S.append(SubCheck(name, strat, oracle, quick=4 * quick, thorough=4 * thorough, discard_exc=exc,
                           budget_quick=45.0, budget_thorough=100.0, shards_thorough=2, **kw))
 
     # --- parafac (callback iterates, incl. the initial one) ------------------
@@ -249,7 +249,7 @@ def subchecks(tier):
         add(f"parafac2/{grp}/reported", g.parafac2_case(grp, iters=pits, tols=TOL, nn_choices=nnc),
             o_reported(F2, "prefix"), quick=q, thorough=4 * q)
 
-    add("parafac2/linesearch_step/objective", ls_step_case(), o_ls_step(F2), quick=40, thorough=300)
+    add("parafac2/linesearch_step/objective", ls_step_case(), o_ls_step(F2), quick=40, thorough=120)
 
     # --- tensor ring ALS (callback iterates) -----------------------------------------
     TR = xi.TensorRingALS()
